@@ -119,6 +119,26 @@ for k in claimed:
     claimed[k]["text"] += SUPP.get(k, "")
     if "evaluation of the go/ssa form" not in claimed[k]["technique"]:
         claimed[k]["technique"] += EVAL
+# Round 5 supplements.
+R5 = {
+ "C01": " Round 5: no == / != (or map key) on two interface values both of which can hold the same uncomparable dynamic type (PANIC-COMPARE: dynamic-type sets derived from where each operand is made); (value, ok) results as made maps; assertions established by a search predicate; budget and depth gates through helpers.",
+ "C02": " Round 5: the operator registry is the set of bindings the dictionary holds when its construction is finished (read from the SSA form, open updates must be zero); putinterval, eq/ne by evaluation over cell tables.",
+ "C03": " Round 5: the look-up table has three states per dictionary (absent, value, the nil Object): a look-up must test presence, not the value.",
+ "C05": " Round 5: the scanner's buffer invariant 0<=pos<=used<=len(buf) at every function boundary (CLASS-INV) is verified under this property too: the replay of peeked bytes needs it across refills; readstring/eexec evaluated with two scanners on the stack.",
+ "C06": " Round 5: closepath appends one ClosePath under every decoder state; a glyph copied from another glyph gets fresh storage for every slice field (T1-SHARECOPY); container detection evaluated for every first byte, seekable or not; look-ups in read-only tables are values.",
+ "C07": " Round 5: nothing read from a candidate dictionary except CMapName reaches a branch in ReadCMap and its helpers: the first dictionary of the directory is returned whatever it contains (CMAP-CHOICE); the comparator's entries must belong to the list being sorted.",
+ "C08": " Round 5: WritePDF evaluated with writers as objects (destination receives SectionA iv enc(SectionB) flush; result 1 counts SectionA, result 2 the rest); the eexec writer's four lead bytes and start state by evaluation; constant tables are values.",
+ "C09": " Round 5: the StandardEncoding shortcut is decided by evaluating writeEncoding on the standard encoding changed at one code (24 cells).",
+ "C11": " Round 5: no caller of a function whose error can be the budget error turns that error into success (L2-NOSWALLOW: the error value is followed over the caller's CFG, killed only where a branch shows it nil or another value; error filters and flags implied by the error are summarised from the callee); the counter may live in a helper every return of which has counted.",
+ "C12": " Round 5: the start check is made once (flag cleared when it passed), same decision table as C11 L7-START: consecutive Execute calls then behave like one call on the concatenation.",
+ "C13": " Round 5: results that announce an error (done, err) count as tests of it; errors handed to a helper that returns them are followed.",
+ "C15": " Round 5: the values on a glyph's C line do not depend on state carried from one glyph to the next other than a plain counter (AFM-PERGLYPH); no string constant with a line end takes part in a value the reader stores into a text field (AFM-ONELINE).",
+ "C17": " Round 5: memory owned by a package-level variable (or the value of a memoising function) is not written after initialisation and no un-cloned reference to it reaches a PostScript program (ISO-SHARED / ISO-GLOBALSTORE, same analysis as C18): reading the same bytes twice gives equal results only then; calls through an accumulator are order-free only if they commute.",
+ "C18": " Round 5: nothing derived from an object taken from a sync.Pool is returned or stored outside the function that took it (ISO-POOL); closures over once-assigned reference-free variables are immutable values.",
+ "C20": " Round 5: narrowing obligations are the places where an integer enters the encoder, through wrappers; a number decoder extracted into a helper is the same decoder.",
+}
+for k in claimed:
+    claimed[k]["text"] += R5.get(k, "")
 claimed["C01"]["note"] = claimed["C01"]["note"].replace("(20 hand-reviewed obligations,", "(12 hand-reviewed obligations,") + " Reviewed assumptions (instance separation of a reader and its source; pfbReader.len >= 0 with its stores checked) are in /verif/reviewed/assumptions.json and listed in the evidence when used. Unexported anchors that were renamed are resolved by shape against /verif/anchors.json (evidence: anchors_resolved_by_shape)."
 
 NA = {}
